@@ -4,9 +4,11 @@
   run_pack(ctx, cfg)       TLC enumerates every (state, operation) pair; harness/cmd/queuemem replays each on a fresh mem.New
   cfg = dict(name, menu=[(qos, exp, big)…], max, ie, nmsg, ids, rdmax, rins)
 """
-import json, os
+import json, os, threading
 import vlib
 from vlib import tla_set, tla_seq, tla_str
+
+_lock = threading.Lock()     # run_pack may be called from several threads (two TLC+replayer pipelines at a time)
 
 PROBE_N = 8
 PROBE_IDS = list(range(101, 109))
@@ -63,22 +65,27 @@ def cfg_name(cfg):
 
 def design_check(ctx, cfg, workers=8, timeout=1500):
     """the specification's own obligations (length, conservation, FIFO, ids, ladder, replay, counters)"""
-    res = ctx.tlc("Queue", mc_body(cfg), cfg_text(cfg, True), name="QueueM_" + cfg_name(cfg), workers=workers, timeout=timeout)
+    res = ctx.tlc("Queue", mc_body(cfg), cfg_text(cfg, True), name="QueueM_" + cfg_name(cfg), workers=workers, timeout=timeout,
+                  count=False)
     if res.violation or res.rc != 0:
         raise vlib.MachineryError("design-level check of Queue.tla failed for %s (model bug):\n%s" % (
             cfg_name(cfg), res.violation or "\n".join(res.tail[-30:])))
-    ctx.cov.setdefault("design_checks", []).append({"config": cfg_name(cfg), "states": res.distinct, "transitions": res.generated,
-                                                    "depth": res.depth, "wall_s": round(res.wall, 1)})
+    with _lock:
+        ctx.cov["states"] += res.distinct
+        ctx.cov["transitions"] += res.generated
+        ctx.cov.setdefault("design_checks", []).append({"config": cfg_name(cfg), "states": res.distinct,
+                                                        "transitions": res.generated, "depth": res.depth,
+                                                        "wall_s": round(res.wall, 1)})
     return res
 
 
 def run_pack(ctx, cfg, workers=8, timeout=1500):
-    """every transition of the model replayed on a fresh real queue; returns (summary, divergences)"""
+    """every transition of the model replayed on a fresh real queue; returns (summary, divergences, pack record)"""
     bindir = ctx.go_build(["./cmd/queuemem"])
     cmd = [os.path.join(bindir, "queuemem"), "-max", str(cfg["max"]), "-ie", cfg["ie"], "-proben", str(PROBE_N),
            "-probeids", str(len(PROBE_IDS))]
     res, out, rc = ctx.tlc_piped("Queue", mc_body(cfg), cfg_text(cfg, False), cmd, name="Queue_" + cfg_name(cfg),
-                                 workers=workers, timeout=timeout)
+                                 workers=workers, timeout=timeout, count=False)
     if res.violation:
         raise vlib.MachineryError("Queue.tla failed its invariants for %s (model bug):\n%s" % (cfg_name(cfg), res.violation))
     if rc != 0:
@@ -101,16 +108,20 @@ def run_pack(ctx, cfg, workers=8, timeout=1500):
     if summary.get("timing_unconfirmed", 0) > 5:
         raise vlib.MachineryError("%d watchdog firings were not confirmed by the slow re-execution: machine too loaded" %
                                   summary["timing_unconfirmed"])
-    ctx.cov["traces_validated_against_impl"] += summary["n"]
-    ctx.cov["evaluations"] += summary["n"]
-    ctx.cov["distinct_nontrivial"] += summary["nontrivial"]
-    for s in summary["samples"][:1]:
-        ctx.sample({"config": cfg_name(cfg), "transition": s})
     ops = {k[3:]: v for k, v in summary["counters"].items() if k.startswith("op:")}
-    ctx.cov.setdefault("packs", []).append({
-        "config": cfg_name(cfg), "menu": [list(m) for m in cfg["menu"]], "max": cfg["max"], "inflight_expiry": cfg["ie"],
-        "messages": cfg["nmsg"], "ids": cfg["ids"], "states": res.distinct, "transitions_replayed": summary["n"],
-        "compared_per_operation": ops, "skipped_prefix_already_diverged": summary.get("tainted_prefix", 0),
-        "watchdog_retries": summary.get("watchdog_retries", 0), "timing_unconfirmed": summary.get("timing_unconfirmed", 0),
-        "divergent_transitions": summary["divergences"], "wall_s": round(res.wall, 1), "target": "mem"})
-    return summary, divs
+    rec = {"config": cfg_name(cfg), "menu": [list(m) for m in cfg["menu"]], "max": cfg["max"], "inflight_expiry": cfg["ie"],
+           "messages": cfg["nmsg"], "ids": cfg["ids"], "read_id_list_max": cfg["rdmax"], "states": res.distinct,
+           "transitions_replayed": summary["n"], "compared_per_operation": ops,
+           "skipped_prefix_already_diverged": summary.get("tainted_prefix", 0),
+           "watchdog_retries": summary.get("watchdog_retries", 0), "timing_unconfirmed": summary.get("timing_unconfirmed", 0),
+           "divergent_transitions": summary["divergences"], "wall_s": round(res.wall, 1), "target": "mem"}
+    with _lock:
+        ctx.cov["states"] += res.distinct
+        ctx.cov["transitions"] += res.generated
+        ctx.cov["traces_validated_against_impl"] += summary["n"]
+        ctx.cov["evaluations"] += summary["n"]
+        ctx.cov["distinct_nontrivial"] += summary["nontrivial"]
+        for s in summary["samples"][:1]:
+            ctx.sample({"config": cfg_name(cfg), "transition": s})
+        ctx.cov.setdefault("packs", []).append(rec)
+    return summary, divs, rec
